@@ -117,6 +117,62 @@ def make_tagged_case(rng):
     return ty, pre
 
 
+# --------------------------------------------------------------------------- family: value shapes on the lookup / "no value" boundaries
+# (1) Enums written as lookup tables: a member's value reads like the *name* of a member (another one, or itself, in some
+#     letter case / blank spelling) - a member is dumped as its value and must come back as the same member;
+# (2) falsy-but-valid values ('' / 0 / 0.0 / False / empty containers / zero Decimal, timedelta, midnight) directly below an
+#     Optional - Optional[Any], Optional[Literal['', ..]], Optional[<Enum with a ''-valued member>], Optional[str], ... -
+#     as field, list element, dict value, tuple member, nested-class field: only None means "no value".
+VALUE_POSITIONS = [('field', lambda u: u), ('list', lambda u: T('list', u)), ('dictval', lambda u: T('dict', T('str'), u)),
+                   ('tuple', lambda u: T('tuple', T('int'), u)), ('vtuple', lambda u: T('vtuple', u)),
+                   ('deque', lambda u: T('deque', u)), ('list-list', lambda u: T('list', T('list', u))),
+                   ('ordereddict', lambda u: T('ordereddict', T('str'), u))]
+OPT_INNER = ['any', 'any', 'any', 'literal', 'literal', 'enum', 'enum', 'str', 'str', 'int', 'float', 'bool', 'decimal', 'timedelta',
+             'time', 'list', 'dict', 'vtuple']
+
+
+def _nested_holder(rng, ft):
+    return {'k': 'cls', 'info': {'name': model.fresh('C'), 'fields': [{'name': 'held'}], 'wizard': rng.choice([True, False]), 'meta': None},
+            'ftys': [['held', ft]]}
+
+
+def make_value_case(rng):
+    o = gen.Opts(**dict(OPTS, enum_words_prob=0.7, falsy_prob=0.5, enum_prob=0.3, enum_mixin_prob=0.2))
+    o.meta_keys = ['key_transform_with_dump']
+    hi = gen.Opts(**dict(OPTS, enum_words_prob=0.85, falsy_prob=0.9, enum_mixin_prob=0.2))
+    ty = gen.gen_cls(rng, rng.choice([0, 1, 1, 2]), o)
+    if rng.random() < 0.25:
+        ty['info']['wizard'] = rng.choice(['yaml', 'toml', 'file'])
+        if ty['info']['wizard'] != 'file':
+            ty['info']['meta'] = None
+    for _ in range(rng.randint(1, 3)):
+        if rng.random() < 0.4:
+            # (1) an Enum at a position of its own, below an Optional, or as the key of a dict (text-valued members)
+            et = gen.gen_enum(rng, hi)
+            pos = rng.choice(['plain', 'plain', 'optional', 'dictkey', 'set'])
+            if pos == 'dictkey' and all(isinstance(v, str) for _, v in et['members']):
+                ft = T('dict', et, T('int'))
+            elif pos == 'set':
+                ft = T(rng.choice(['set', 'frozenset']), et)
+            elif pos == 'optional':
+                ft = rng.choice(VALUE_POSITIONS)[1](gen.opt_spelling(rng, gen._falsy_mark(T('optional', et), hi)))
+            else:
+                ft = rng.choice(VALUE_POSITIONS)[1](et)
+        else:
+            # (2) an Optional whose member type has falsy values
+            k = rng.choice(OPT_INNER)
+            inner = (gen.gen_literal(rng, hi) if k == 'literal' else gen.gen_enum(rng, hi) if k == 'enum'
+                     else T('list', T('int')) if k == 'list' else T('dict', T('str'), T('any')) if k == 'dict'
+                     else T('vtuple', T('str')) if k == 'vtuple' else T(k))
+            if inner['k'] == 'literal' and None in inner['vs']:
+                inner['vs'] = [v for v in inner['vs'] if v is not None] or ['']
+            ft = rng.choice(VALUE_POSITIONS)[1](gen.opt_spelling(rng, gen._falsy_mark(T('optional', inner), hi)))
+        if rng.random() < 0.2:
+            ft = _nested_holder(rng, ft)
+        _add_field(rng, ty, ft)
+    return ty
+
+
 def standalone_first_candidates(ty):
     """(nested class N, allowed uses) for uses of N on its own that may precede the first use of `ty`.
 
@@ -216,6 +272,11 @@ def run(ctx: C.Ctx):
                  'Meta or bound from outside the class (LoadMeta / DumpMeta style); Unions of dataclasses with explicit, automatic and '
                  'mixed tags at several container positions; plain nested classes whose field names come from the same pool as the tag '
                  'keys; histories in which nested classes are dumped / round-tripped on their own before the first use of the main class.')
+    ctx.rule += (' Family value-shapes: Enums written as lookup tables (member values that read like the name of another / the same '
+                 'member, in several letter-case / blank spellings; plain and str mix-in) at field / container / dict-key / Optional '
+                 'positions; falsy-but-valid values (empty string, 0, 0.0, False, empty containers, zero Decimal / timedelta, midnight) '
+                 'directly below Optional[Any | Literal with falsy members | Enum with a falsy-valued member | str | ...] as field, '
+                 'list / deque / tuple element, dict value, nested-class field.')
     n = ctx.quick(1200, 15000)
     reqs, pend = [], []
     for i in range(n):
@@ -237,7 +298,7 @@ def run(ctx: C.Ctx):
             built.close()
     # ---- directed family; each case has its own RNG (seed, family, j), so a replay regenerates just that case
     base = n
-    for fam, count in (('tagged-config', ctx.quick(500, 6000)),):
+    for fam, count in (('tagged-config', ctx.quick(500, 6000)), ('value-shapes', ctx.quick(500, 6000))):
         for j in range(count):
             idx = base + j
             if ctx.done(idx):
@@ -245,7 +306,7 @@ def run(ctx: C.Ctx):
             if ctx.only is not None and ctx.only != idx:
                 continue
             crng = random.Random(f'C01:{ctx.seed}:{fam}:{j}')
-            ty, pre = make_tagged_case(crng)
+            ty, pre = make_tagged_case(crng) if fam == 'tagged-config' else (make_value_case(crng), [])
             try:
                 built = model.Built(ty)
             except Exception as e:
